@@ -69,6 +69,7 @@ EvInit(e) ==
         /\ (Iid => StoreClauses(e.iid, e, "independent set"))
         /\ P("C03", "initial counts", e.counts = <<NInit>> /\ e.n_initial = NInit)
         /\ M("init: not InitS", post.tr = InitS.tr /\ post.nprop = 1)
+        /\ P("C12", "started_afresh_although_a_checkpoint_exists", disk = <<>>)
         /\ UNCHANGED <<disk, levels, aux>>
 
 EvIter(e) ==
